@@ -3,7 +3,9 @@ LEVEL = "proof"
 LEAN_MODULES = ["CifModel.Props.C08"]
 REQUIRED = ["CifModel.C08_firstChar_link", "CifModel.C08_fold_prefix", "CifModel.C08_fold_any_chunking",
             "CifModel.C08_chunking_irrelevant", "CifModel.C08_style_independent", "CifModel.C08_handle_eol",
-            "CifModel.C08_line_numbers", "CifModel.C08_unrepaired_first_char", "CifModel.C08_cex_three_cr"]
+            "CifModel.C08_line_numbers", "CifModel.C08_unrepaired_first_char", "CifModel.C08_cex_three_cr",
+            "CifModel.C08_buffer_moves_preserve_token", "CifModel.C08_buffer_cases", "CifModel.C08_buffer_room",
+            "CifModel.C08_buffer_init"]
 GEN = ["ParseConsts"]
 FAMILIES = ["fills", "align"]
 TRUSTED_BASE = [
